@@ -321,6 +321,39 @@ def rule_writer_validates(rep: Report, repo: Repo) -> None:
               f'last validation line {last_val} < first mutation line {first_mut}', f'{W}:{add.lineno}')
 
 
+def rule_overlap(rep: Report, repo: Repo) -> None:
+    rep.rule('C06.OVERLAP', 'the overlap predicates agree with interval intersection: Writer._is_collision (inclusive ends) is '
+             'equivalent to s1 <= e2 and s2 <= e1 on every order type of its four arguments; its callers pass start + length - 1 '
+             'as the inclusive end and skip empty data ranges; the reader tests start2 < end1 on sorted half-open ranges', 4)
+    from ..ordereval import first_disagreement
+    col = repo.func(W, 'Writer._is_collision')
+    bad = first_disagreement(col, lambda s1, e1, s2, e2: s1 <= e2 and s2 <= e1, 4, lambda s1, e1, s2, e2: s1 <= e1 and s2 <= e2)
+    rep.check(bad is None, 'C06.OVERLAP', 'Writer._is_collision', 'equivalent to inclusive-interval intersection on all order types'
+              if bad is None else f'differs from inclusive-interval intersection for (start1, end1, start2, end2) = {tuple(bad)}',
+              f'{W}:{col.lineno}', expected='s1 <= e2 and s2 <= e1')
+    for fn_name, s, l in (('Writer._validate_segment_addresses_not_overlapping', 'segment_start', 'segment_length'),
+                          ('Writer._validate_segment_data_not_overlapping', 'data_start', 'data_length')):
+        fn = repo.func(W, fn_name)
+        ends = {norm(st.targets[0]): norm(st.value) for st in ast.walk(fn) if isinstance(st, ast.Assign) and isinstance(st.targets[0], ast.Name)}
+        cs = [[norm(a) for a in c.args] for c in calls(fn) if dotted(c.func) == 'self._is_collision']
+        new_end = [k for k in ends if k.startswith('new_') and k.endswith('_end')]
+        ok = len(cs) == 1 and len(new_end) == 1 and ends[new_end[0]] == f'new_{s} + new_{l} - 1' and \
+            any(v == f'{s} + {l} - 1' for k, v in ends.items() if not k.startswith('new_')) and \
+            cs[0][1] == [k for k, v in ends.items() if v == f'{s} + {l} - 1'][0] and cs[0][3] == new_end[0] and cs[0][0] == s and cs[0][2] == f'new_{s}'
+        if 'data' in fn_name:
+            skips = [norm(n.test) for n in ast.walk(fn) if isinstance(n, ast.If) and isinstance(n.body[0], (ast.Return, ast.Continue))]
+            ok = ok and skips == ['new_data_length == 0', 'data_length == 0']
+        rep.check(ok, 'C06.OVERLAP', fn_name, f'ends {ends}; call {cs}', f'{W}:{fn.lineno}', expected='inclusive end = start + length - 1')
+    if repo.has_func(R, 'Reader._validate_segments_not_overlapping'):
+        hf = repo.func(R, 'Reader._validate_segments_not_overlapping')
+        srt = [norm(st.value) for st in ast.walk(hf) if isinstance(st, ast.Assign) and isinstance(st.value, ast.Call) and dotted(st.value.func) == 'sorted']
+        tests = [norm(t).replace(' ', '') for t, r, _ in raise_guards(hf)]
+        zipped = any(isinstance(n, ast.For) and 'zip(' in norm(n.iter) and '[1:]' in norm(n.iter) for n in ast.walk(hf))
+        rep.check(srt == ['sorted(((start, start + length) for start, length, _, _ in segments))'] and tests == ['start2<end1'] and zipped,
+                  'C06.OVERLAP', 'Reader._validate_segments_not_overlapping', f'{srt} {tests}', f'{R}:{hf.lineno}',
+                  expected='adjacent pairs of the sorted half-open ranges: start2 < end1')
+
+
 def check(rep: Report, repo: Optional[Repo] = None) -> None:
     repo = repo or Repo()
     rep.units = dict(files=[W, R, K], functions=['Writer.write_to_file', 'Writer.add_segment', 'Writer._update_to_relative_jumps',
@@ -332,6 +365,7 @@ def check(rep: Report, repo: Optional[Repo] = None) -> None:
     rule_zerofill(rep, repo)
     rule_lzma(rep, repo)
     rule_writer_validates(rep, repo)
+    rule_overlap(rep, repo)
     rep.not_decided.append('equality of the loaded image for all writer call sequences (value-level)')
     rep.assumptions.append('struct and lzma behave as documented (one-shot lzma.decompress checks the end marker)')
 
